@@ -171,6 +171,61 @@ func (ef *errFlow) errTest(ins ssa.Instruction, cond ssa.Value) (ssa.Value, stri
 		if f := x.Call.StaticCallee(); f != nil && f.Name() == "IsUnmatchedErr" && len(x.Call.Args) == 1 {
 			return ef.ff.resolve(ins, x.Call.Args[0]), "sanction"
 		}
+	case *ssa.Phi:
+		// a named condition: `bad := a || b` (constant-true edges come from the tests that
+		// short-circuited) or `ok := a && b`. When every atom tests the same error value in the
+		// same way, the merged flag tests it that way too.
+		if x.Type().String() != "bool" {
+			return nil, ""
+		}
+		var v ssa.Value
+		kind := ""
+		orForm, andForm := false, false
+		for j, e := range x.Edges {
+			var av ssa.Value
+			ak := ""
+			if c, isC := boolConst(e); isC {
+				pb := x.Block().Preds[j]
+				pif, ok := pb.Instrs[len(pb.Instrs)-1].(*ssa.If)
+				if !ok || len(pb.Succs) != 2 {
+					return nil, ""
+				}
+				// which outcome of the predecessor's test leads here
+				outcome := pb.Succs[0] == x.Block()
+				if outcome != c {
+					return nil, "" // not a short-circuit shape
+				}
+				if c {
+					orForm = true
+				} else {
+					andForm = true
+				}
+				av, ak = ef.errTest(pif, pif.Cond)
+				if !c {
+					// the atom was false on this edge; its kind when true is what we collect
+				}
+			} else {
+				av, ak = ef.errTest(ins, e)
+			}
+			if av == nil || ak == "" {
+				return nil, ""
+			}
+			if v == nil {
+				v, kind = av, ak
+			} else if v != av || kind != ak {
+				return nil, ""
+			}
+		}
+		if v == nil || (orForm && andForm) {
+			return nil, ""
+		}
+		if andForm {
+			// true: every atom holds (kind); false: nothing can be said — report only the true meaning
+			// by answering for the true edge; callers negate for the false edge, which would be wrong,
+			// so conjunctions are not interpreted
+			return nil, ""
+		}
+		return v, kind
 	}
 	return nil, ""
 }
@@ -220,7 +275,7 @@ func runErrFlow(p *Pub, E *Effects, fn *ssa.Function, trackAll bool) *errFlow {
 			// (a) effect after failure
 			if report && ci != nil && ci.Trans&(eSIDE|eCLK|eHOOK|eGATE) != 0 && !isUnlockCall(x) {
 				for v, st := range s {
-					if st&(esU|esF) != 0 {
+					if st&(esU|esF) != 0 && !ef.ff.has(ins, v, fNIL, "") {
 						ef.findings = append(ef.findings, errFinding{"effect-after-failure", ins, v, st, ci.Label + " [" + ci.Trans.String() + "]"})
 					}
 				}
@@ -253,8 +308,8 @@ func runErrFlow(p *Pub, E *Effects, fn *ssa.Function, trackAll bool) *errFlow {
 				}
 			}
 			for v, st := range s {
-				if st&(esU|esF) == 0 || handed[v] {
-					continue
+				if st&(esU|esF) == 0 || handed[v] || ef.ff.has(ins, v, fNIL, "") {
+					continue // handled, handed on, or known nil here by the path-sensitive facts
 				}
 				if !mayNil {
 					continue // the function fails anyway: the failure is reported, if under another error value
@@ -317,6 +372,15 @@ func runErrFlow(p *Pub, E *Effects, fn *ssa.Function, trackAll bool) *errFlow {
 			for i, pr := range succ.Preds {
 				if pr == b {
 					pi = i
+				}
+			}
+			// what the path-sensitive facts (E2) know on this edge: a tracked error that is
+			// known nil here is not failed, whatever the sequence of tests was
+			if es := ef.ff.edgeIn[succ]; pi >= 0 && pi < len(es) && es[pi] != nil {
+				for v, st := range out {
+					if st&(esU|esF) != 0 && es[pi].facts[fact{ef.ff.canon(es[pi], v), fNIL, ""}] {
+						out[v] = esO
+					}
 				}
 			}
 			for _, ins := range succ.Instrs {
